@@ -315,7 +315,43 @@ def make_concurrent_body(spec):
     return body
 
 
+def make_stepwise_body(spec):
+    """(d) two applications whose subroutines are advanced one generator step at a time in every order: the executor yields INSIDE qalloc /
+    qfree (the reserve / clear hooks of the back end), so bookkeeping done around those yields must not lose the other application's update"""
+    def body(inp):
+        from .c12 import CoExecutor
+        SharedMemoryManager.reset_memories()
+        ex = CoExecutor("ctrl")
+        site = {"mode": "stepwise"}
+        texts = {0: "set Q0 0\nqalloc Q0\nqfree Q0\nset Q0 0\nqalloc Q0\n", 1: "set Q0 0\nqalloc Q0\nset Q1 1\nqalloc Q1\nqfree Q0\n"}
+        gens = {}
+        for a in (0, 1):
+            ex.init_new_application(app_id=a, max_qubits=2)
+            gens[a] = ex.execute_subroutine(parse_text_subroutine(HDR.format(app=a) + texts[a]))
+        alive = [0, 1]
+        steps = 0
+        try:
+            while alive:
+                steps += 1
+                if steps > 80:
+                    return []
+                a = alive[inp.choice(f"w{steps}", len(alive))] if len(alive) > 1 else alive[0]
+                try:
+                    next(gens[a])
+                except StopIteration:
+                    alive.remove(a)
+        except (PathAbort, Infeasible):
+            raise
+        except Exception as e:  # noqa
+            return [Ob("controller_raises", False, dict(site, exc=type(e).__name__), info=f"{type(e).__name__}: {str(e)[:200]}")]
+        return invariants(type("W", (), {"ex": ex, "registered": {0: 2, 1: 2}})(), site, {"steps": steps})
+
+    return body
+
+
 def body_of(spec):
+    if spec["kind"] == "stepwise":
+        return make_stepwise_body(spec)
     if spec["kind"] == "concurrent":
         return make_concurrent_body(spec)
     return make_history_body(spec) if spec["kind"] == "history" else make_step_body(spec)
@@ -366,11 +402,14 @@ def main(tier, seed):
     for st in states:
         specs.append({"kind": "step", "napps": napps, "sizes": sizes, "state": st})
     specs.append({"kind": "concurrent", "napps": 3})
+    specs.append({"kind": "stepwise"})
     if tier == "thorough":
         specs.append({"kind": "concurrent", "napps": 4, "hunt": True, "max_paths": 120000})
     for sp_ in specs:
         sp_["tier"] = tier
-    rep.bounds = ["(c) 3 applications whose subroutines suspend at a wait instruction: every order of starting, delivering and resuming"
+    rep.bounds = ["(d) 2 applications (allocate, free, allocate again / allocate two, free one) advanced one executor step at a time in every order, "
+                  "including the yields inside qalloc and qfree",
+                  "(c) 3 applications whose subroutines suspend at a wait instruction: every order of starting, delivering and resuming"
                   + ("; 4 applications: the first 120000 orders only (time-boxed, not exhaustive; count in `hunting`)" if tier == "thorough" else ""),
                   f"(a) all histories of {depth} operations over {napps} applications (unit modules of 1..2 qubits), operations: init, stop, "
                   "qalloc v, qfree v, classical write + ret_reg/ret_arr, recv_epr + keep response for a free virtual qubit; faulting "
